@@ -434,7 +434,7 @@ pub fn run(run: &mut Run) {
         }
     }
     // larger sources (vector and slice flavours; arrays need a const length): sizes around powers of two
-    let big: Vec<usize> = if run.quick() { vec![7, 8, 9, 12, 16, 17, 31, 32, 33, 100, 255, 256, 257] } else { (7..=40).chain([63, 64, 65, 100, 127, 128, 129, 192, 255, 256, 257, 300, 511, 512, 513, 1000]).collect() };
+    let big: Vec<usize> = if run.quick() { (7usize..=70).chain([97, 100, 127, 128, 129, 255, 256, 257]).collect() } else { (7usize..=300).chain([511, 512, 513, 1000, 1009]).collect() };
     for flavour in [0usize, 1, 2, 3, 4, 10, 11, 12, 13, 14] {
         for &n in &big {
             let (leaves, cps, v, outcomes) = choice_case(flavour, n);
@@ -454,7 +454,7 @@ pub fn run(run: &mut Run) {
         }
     }
     run.bound("large_source_sizes", json!(big));
-    let sizes: Vec<usize> = (0..=max_n).chain(if run.quick() { vec![7, 8, 16, 64, 255, 256, 257] } else { vec![7, 8, 9, 15, 16, 17, 64, 100, 255, 256, 257, 1000, 4096] }).collect();
+    let sizes: Vec<usize> = (0..=max_n).chain(if run.quick() { (7usize..=130).chain([255, 256, 257]).collect::<Vec<usize>>() } else { (7usize..=300).chain([1000, 1009, 4096]).collect() }).collect();
     run.bound("collection_sizes", json!(sizes));
     // nested: a collection of `outer` collections of `inner` elements each, in generation order
     for outer in 0..=3usize {
